@@ -14,4 +14,6 @@ CONSTANTS
   D = 4
   NameFamily = "collide"
   NameImpl = "leafset"
+  SampleImpl = "ref"
+  ForkImpl = "ref"
 INVARIANT C06_FullCostAllFixed
